@@ -25,6 +25,9 @@ RULE = ("scenes: 1-12 (thorough <=40) interior-disjoint convex shapes (rectangle
         "shape, so that shifted and merged hyperedge segments must stop at it; tags orth-hyperedge / orth-hyperedge-major) and random "
         "grid scenes (tag orth-hyperedge-random); only displayRoute() is judged there, a junction end is expected at the "
         "junction's recommendedPosition(). Every case runs in a child process (a library abort becomes a `crash` verdict). "
+        "Polyline edit histories (tag poly-edit-history, general-position scenes): router kept alive, each later transaction adds a "
+        "small rectangle or moves an existing one across exactly one segment of a current route (first/middle/last/only), or "
+        "deletes / moves away a shape; every (history, step) snapshot is a case (child process replays the history). "
         "A case is non-trivial if some route has >= 3 points (had to bend round a shape).")
 TRUSTED_BASE = ["Lean 4.33 kernel", "axioms: propext, Classical.choice, Quot.sound", "Lean compiler for the driver",
                 "harness + generator + hex-float import", "driver glue: parsing, bounding-box prefilter (completeness of the hit search only)"]
